@@ -8,7 +8,7 @@ def H(name, fn, twins=(), **kw):
     d.update(kw)
     return d
 
-SLICES = TXSLICES + T.CONSTS + [T.ISFINAL, T.CALCSEQ, T.EVALSEQ, T.SEQLOCKS, T.HAVEINPUTS, T.CHECKTXINPUTS, T.FRAG_TXINPUTS_CALL, T.FRAG_BIP68, T.FRAG_CUTOFF]
+SLICES = TXSLICES + T.CONSTS + T.FUNCS + [T.FRAG_TXINPUTS_CALL, T.FRAG_BIP68, T.FRAG_CUTOFF]
 REASONS = ["bad-txns-inputs-missingorspent", "bad-txns-premature-spend-of-coinbase", "bad-txns-inputvalues-outofrange", "bad-txns-in-belowout", "bad-txns-fee-outofrange",
            "bad-txns-nonfinal", "bad-txns-accumulated-fee-outofrange", "bad-cb-amount"]
 PLAN = {
@@ -23,6 +23,7 @@ PLAN = {
         H("h_bip68_gate", "ConnectBlock_bip68_gate", replace=["SequenceLocks"], loop_contracts=True),
         {"name": "h_locktime_cutoff", "enforce": "ContextualCheckBlock_locktime", "loop_contracts": True, "twins": [{"define": "TWIN_CUTOFF", "expect": "postcondition|assertion"}]},
     ],
+    "native": T.NATIVE,
     "not_covered": ["GetMedianTimePast / GetAncestor themselves (uninterpreted functions of the block index here; C54/C07)",
                     "the computation of nLockTimeFlags (DeploymentActiveAt CSV) and that ConnectBlock/ContextualCheckBlock run for every accepted block",
                     "mempool-side lock points (CheckSequenceLocksAtTip) and reorg re-evaluation"],
